@@ -1,5 +1,5 @@
 SPECIFICATION Spec
 CONSTANT Emit = FALSE
 INVARIANT WriterRoundTrips
-INVARIANT EmitW
+\* INVARIANT EmitW
 CHECK_DEADLOCK FALSE
